@@ -573,7 +573,10 @@ impl<'a> Repr<'a> {
                 // exceeding the MTU.
                 opt.clear_redirected_reserved();
                 opt.set_option_type(Type::RedirectedHeader);
-                opt.set_data_len((8 + header.buffer_len() + data.len()).div_ceil(8) as u8);
+                let opt_len = 8 + header.buffer_len() + data.len();
+                opt.set_data_len(opt_len.div_ceil(8) as u8);
+                // The padding up to that multiple of 8 is zero.
+                opt.buffer.as_mut()[opt_len..opt_len.div_ceil(8) * 8].fill(0);
                 let mut packet = &mut opt.data_mut()[field::REDIRECTED_RESERVED.end - 2..];
                 let mut ip_packet = Ipv6Packet::new_unchecked(&mut packet);
                 header.emit(&mut ip_packet);
